@@ -33,6 +33,9 @@ func splitTop(s string) (string, []string) {
 			break
 		}
 		j := sexpEnd(body, i)
+		if j <= i {
+			return s, nil // malformed: treat as an atom
+		}
 		parts = append(parts, body[i:j])
 		i = j
 	}
@@ -123,6 +126,7 @@ func (q *quantHyp) instantiate(vals []string) string {
 // skolemize turns the goal into hypotheses + a quantifier-free goal.
 func skolemize(goal string, counter *int) (decls, hyps []string, body string, skolems []string, ok bool) {
 	cur := goal
+loop:
 	for {
 		op, as := splitTop(cur)
 		switch {
@@ -145,7 +149,7 @@ func skolemize(goal string, counter *int) (decls, hyps []string, body string, sk
 			cur = b
 			continue
 		}
-		break
+		break loop
 	}
 	if strings.Contains(cur, "(forall ") {
 		return nil, nil, "", nil, false
